@@ -21,6 +21,8 @@ type c11In struct {
 	Len4Count int    `json:"len4_count"` // sampled length-(maxlen+1) strings
 	LongCount int    `json:"long_count"` // random longer / arbitrary-byte strings
 	Seed      int64  `json:"seed"`
+	// CodePoints: sweep all 1.1 M Unicode scalar values through eight name shapes
+	CodePoints bool `json:"code_points"`
 }
 
 type c11Acc struct {
@@ -104,6 +106,24 @@ func verifC11(t *testing.T) {
 				try(string([]byte{c, byte(x), d}))
 				try(string([]byte{c, d, byte(x)}))
 			}
+		}
+	}
+	// every Unicode scalar value (UTF-8 encoded) in each position of a note name: as the pitch letter, as the sharp sign, as the octave
+	// digit, as the minus sign - letters and digits of other scripts, look-alikes, characters that case-fold to ASCII (U+212A, U+017F)
+	if in.CodePoints {
+		for cp := rune(0x80); cp <= 0x10FFFF; cp++ {
+			if cp >= 0xD800 && cp <= 0xDFFF {
+				continue
+			}
+			c := string(cp)
+			try(c + "0")
+			try(c + "#0")
+			try(c + "-1")
+			try(c + "#-1")
+			try("c" + c)
+			try("c#" + c)
+			try("c" + c + "1")
+			try("c-" + c)
 		}
 	}
 	rng := rand.New(rand.NewSource(in.Seed))
